@@ -367,7 +367,53 @@ def generate(rng, tier, scale=1):
     cases.extend(hist.gen_hist(rng, tier, scale))
     cases.extend(hist.gen_long(rng, tier, scale))
     cases.extend(gen_calls(rng, tier, scale))
+    cases.extend(gen_thub(rng, tier, scale))
     return cases
+
+
+def _thub_kinds():
+    ks = [("lowpass", st, None) for st in LP_STRATS] + [("highpass", st, None) for st in LP_STRATS]
+    ks += [("resonator", st, None) for st in RES_STRATS] + [("klapuri", "klapuri", None)]
+    ks += [("comb", st, d) for st, d in (("fb", 1), ("tau", 2), ("ff", 3))]
+    return ks
+
+
+def gen_thub(rng, tier, scale=1):
+    """entry thub (ALV/Model/C13Thub.lean): ONE design called with Stream-valued / number arguments, its filter objects
+    (the positions of the cascade; one for a plain filter) read by a SCHEDULE - any order, different rates; read number k of
+    position j must show the constant design of value number k of every argument, whatever was read in between"""
+    out = []
+    reps = (1 if tier == "quick" else 6) * scale
+    for _ in range(reps):
+        for kind, st, d in _thub_kinds():
+            two = kind in ("resonator", "klapuri")
+            nsec = 4 if kind == "klapuri" else 1
+            for shape in ("lockstep", "uneven", "uneven") if nsec > 1 else ("lockstep",):
+                n1, n2 = rng.randint(2, 4), rng.randint(2, 3)
+                if kind == "comb":
+                    v1 = [_f(rng.uniform(0.5, 50)) if st == "tau" else _f(rng.choice([-1, 1]) * rng.randint(1, 15) / 16.0)
+                          for _ in range(n1)]
+                    d = rng.randint(1, 6) if scale > 1 or tier != "quick" else d
+                else:
+                    v1 = [_f(_rand_freq(rng)) for _ in range(n1)]
+                v2 = [_f(_rand_bw(rng)) for _ in range(n2)] if two else [_f(0.5)]
+                streams = [True, two]
+                if two:
+                    streams = rng.choice([[True, True], [True, True], [True, False], [False, True]])
+                elif rng.random() < 0.15:
+                    streams = [False, False]
+                v1 = v1 if streams[0] else v1[:1]
+                v2 = v2 if streams[1] else v2[:1]
+                if shape == "lockstep":
+                    sched = list(range(nsec)) * rng.randint(3, 5)
+                else:
+                    sched = [rng.randrange(nsec) for _ in range(rng.randint(8, 14))]
+                    sched += [rng.choice([0, 2])] * 3          # one position runs ahead of the others
+                c = {"entry": "thub", "kind": kind, "strategy": st, "v1": v1, "v2": v2, "streams": streams, "sched": sched}
+                if d is not None:
+                    c["delay"] = d
+                out.append(c)
+    return out
 
 
 
@@ -610,6 +656,35 @@ def _impl_erbmap(c):
     return o
 
 
+def _impl_thub(c):
+    """the real design with Stream(*values) / number arguments; per schedule entry j one item of every coefficient of the
+    filter object at position j of the cascade (numdict / dendict; a number coefficient is itself)"""
+    import warnings
+    import audiolazy as al
+    with warnings.catch_warnings():
+        warnings.simplefilter("ignore")
+        args = []
+        for vals, as_stream in zip((c["v1"], c["v2"]), c["streams"]):
+            vals = [_fl(x) for x in vals]
+            args.append(al.Stream(*vals) if as_stream else vals[0])
+        k = c["kind"]
+        if k in ("lowpass", "highpass"):
+            filt = getattr(al, k)[c["strategy"]](args[0])
+        elif k == "resonator":
+            filt = al.resonator[c["strategy"]](args[0], args[1])
+        elif k == "klapuri":
+            filt = al.gammatone.klapuri(args[0], args[1])
+        else:
+            filt = al.comb[c["strategy"]](c["delay"], args[0])
+        objs = list(filt) if isinstance(filt, al.CascadeFilter) else [filt]
+        cols = [({int(kk): v for kk, v in f.numdict.items()}, {int(kk): v for kk, v in f.dendict.items()}) for f in objs]
+        reads = []
+        for j in c["sched"]:
+            n, d = hist._instant(cols[j][0]), hist._instant(cols[j][1])
+            reads.append(None if n is None or d is None else {"num": n, "den": d})
+        return {"reads": reads, "nobj": len(objs), "distinct_objects": len(set(id(f) for f in objs)) == len(objs)}
+
+
 def impl(c):
     """hist / combhist: the first ISO_ALWAYS of a run alone in a fresh process (harness/props/c13_hist.py:zygote_start),
     everything else in this process — and again alone in a fresh process when it disagrees (see compare)"""
@@ -668,6 +743,8 @@ def impl_here(c):
         if e == "erb_constants":
             x, y = al.gammatone_erb_constants(c["n"])
             return {"value": [enc(float(x)), enc(float(y))]}
+        if e == "thub":
+            return _impl_thub(c)
         if e == "stream":
             d, n = c["design"], c["take"]
             if d in ("lowpass", "highpass"):
@@ -937,6 +1014,35 @@ def _problems(c, io, drv):
     elif e == "erb_constants":
         if not _ulp_close(io["value"][:1], drv["model"][:1]) or not _ulp_close(io["value"][1:], drv["model"][1:]):
             out.append(("model", name + ":value", "impl %r model %r" % (io["value"], drv["model"])))
+    elif e == "thub":
+        name = "thub." + c["kind"] + "." + c["strategy"]
+        if drv.get("wf") is not True:
+            out.append(("model", name + ":program-not-wellformed", "wfDesign of the strategy's stream program is false"))
+
+        def tz(xs):
+            xs = list(xs)
+            while len(xs) > 1 and _fl(xs[-1]) == 0:
+                xs.pop()
+            return xs
+        past = []
+        for t, (j, got) in enumerate(zip(c["sched"], io["reads"])):
+            k = past.count(j)
+            past.append(j)
+            if got is None:
+                out.append(("spec", name + ":coefficient-stream-ended", "read %d (position %d, its read number %d): a coefficient "
+                            "Stream has ended" % (t, j, k)))
+                return out
+            for part in ("num", "den"):
+                want = tz(drv["spec"][t][part])
+                if not _ulp_close(tz(got[part]), want):
+                    out.append(("spec", name + ":sample-by-sample", "read %d = read number %d of position %d, %s: Stream-valued "
+                                "design %r, constant design of value number %d of each argument %r" % (
+                                    t, k, j, part, [_fl(x) for x in got[part]], k, [_fl(x) for x in want])))
+                if not _ulp_close(tz(got[part]), tz(drv["model"][t][part])):
+                    out.append(("model", name + ":sample-by-sample", "read %d (position %d, its read number %d) %s: impl %r model %r" % (
+                        t, j, k, part, [_fl(x) for x in got[part]], [_fl(x) for x in drv["model"][t][part]])))
+            if out:
+                return out
     elif e == "stream":
         name = "stream." + c["design"] + "." + c["strategy"]
         n = c["take"]
@@ -1061,6 +1167,16 @@ def tally(eng, c, io):
             eng.count("impl_error", io["err"])
         hist.tally_long(eng, c, io)
         return
+    if e == "thub":
+        eng.count("entry", "thub." + c["kind"] + "." + c["strategy"])
+        eng.count("thub_args", "/".join("Stream" if b else "number" for b in c["streams"][:2 if c["kind"] in ("resonator", "klapuri") else 1]))
+        nsec = io.get("nobj", 1)
+        cnt = [c["sched"].count(j) for j in range(nsec)]
+        eng.count("thub_schedule", "one filter object" if nsec == 1 else
+                  "cascade, lock-step" if c["sched"] == list(range(nsec)) * cnt[0] else "cascade, uneven rates / order")
+        if "err" in io:
+            eng.count("impl_error", io["err"])
+        return
     eng.count("entry", e + ("." + c["design"] if e == "stream" else "") + "." + str(c.get("strategy", "")))
     if e in DEFAULT_STRATEGY and "sig" not in c:
         # call shape: which object is called, how the arguments travel, which are left out, their numeric types
@@ -1170,6 +1286,14 @@ def shrink(c):
         for v in _simpler(c["param"]):
             yield dict(c, param=_f(v))
         return
+    if e == "thub":
+        if len(c["sched"]) > 1:
+            yield dict(c, sched=c["sched"][:-1])
+            yield dict(c, sched=c["sched"][1:])
+        for k in ("v1", "v2"):
+            if len(c[k]) > 1:
+                yield dict(c, **{k: c[k][:-1]})
+        return
     if e == "stream":
         for k in ("cutoff", "freq", "bandwidth", "param"):
             if isinstance(c.get(k), list) and len(c[k]) > 1:
@@ -1205,7 +1329,7 @@ def shrink(c):
 
 def neighbours(c):
     e = c["entry"]
-    if e in ("hist", "combhist", "run"):
+    if e in ("hist", "combhist", "run", "thub"):
         return
     for k in ("cutoff", "freq", "bandwidth", "param"):
         if k in c and not isinstance(c[k], list) and "rate" not in c and k not in c.get("spell", {}) and e != "erbmap":
